@@ -16,7 +16,7 @@ ASSUMPTIONS = [
     "substituting torch.rand inside MatNetInitEmbedding.forward only; without pinning two calls differ by design",
     "policies/envs combinations that the library does not support at all (no embedding registered) are not run",
 ]
-REQUIRED_COUNTERS = ["c14_eval_chunkings", "c14_solo_decodes", "c14_comparisons", "c14_ctx_pool", "c14_ctx_subset", "c14_ctx_copies"]
+REQUIRED_COUNTERS = ["c14_solo_padding_trimmed", "c14_eval_chunkings", "c14_solo_decodes", "c14_comparisons", "c14_ctx_pool", "c14_ctx_subset", "c14_ctx_copies"]
 MIN_NONTRIVIAL = {"quick": 2500, "thorough": 30000}
 WORKERS = {"quick": 14, "thorough": 16}
 BUDGET_S = {"quick": 500, "thorough": 3000}
@@ -70,6 +70,14 @@ def cases(tier, seed):
             for r in range(2 if q else 6):
                 k = n // 2 if env == "pdp" else n
                 out.append(dict(policy="am", env=env, n=n, m=6 if q else 8, s=rnd.randrange(10**6), wseed=r, extra={}, multistart=k))
+    # scheduling instances with different operation counts: alone, an instance carries no padding; in a batch it is padded to the largest
+    # (FJSP only: FJSPFileGenerator pads each loaded set to its largest instance, so the same file instance meets different amounts of
+    # padding. JSSPGenerator pads with NON-ZERO processing times that the encoder reads: there the padding content is part of the
+    # instance tensor, see DESIGN 9b/32.)
+    for env, extra in (("fjsp", dict(jobs=3, mas=2, min_ops=1, max_ops=4, mask_no_ops=True)), ("fjsp", dict(jobs=4, mas=3, min_ops=1, max_ops=3, mask_no_ops=True)),
+                       ("fjsp", dict(jobs=5, mas=2, min_ops=2, max_ops=6, mask_no_ops=False))):
+        for r in range(3 if q else 10):
+            out.append(dict(policy="l2d", env=env, n=6, m=5 if q else 8, s=rnd.randrange(10**6), wseed=r, extra=extra, trim_pad=True))
     # the same dataset evaluated with several loader batch sizes (partial last chunk, chunks of one)
     for env in ("tsp", "cvrp", "op", "pctsp"):
         for method in ("greedy", "augment_dihedral_8", "multistart_greedy"):  # (the symmetric augmentation draws random rotations per loader batch: chunk-dependent by design)
